@@ -741,7 +741,7 @@ func main() {
 		repo = "/repo"
 	}
 	files := corpusFiles(repo)
-	maxFiles := 120
+	maxFiles := 60
 	if f.Tier == "thorough" {
 		maxFiles = len(files)
 	}
